@@ -3,18 +3,21 @@ import numpy as np
 
 
 class IBM:
-    def __init__(self, modules, kill=None, age=False, **kw):
+    def __init__(self, modules, kill=None, age=False, log=None, **kw):
         self.modules = modules
         self.kill = kill or {}
         self.age = age
         self.closed = 0
         self.calls = []
+        self.log = log
 
     def update(self):
         state = self.modules["state"]
         timer = self.modules["time"]
         step = timer.step
         self.calls.append((step, len(state.X)))
+        if self.log is not None:
+            self.log.append(("ibm", step, list(state.pid), list(state.X), list(state.alive)))
         if self.age:
             state["age"] = state.age + timer.dt / np.timedelta64(1, "s")
         flags = self.kill.get(step)
@@ -24,3 +27,5 @@ class IBM:
 
     def close(self):
         self.closed += 1
+        if self.log is not None:
+            self.log.append(("close", "ibm"))
